@@ -45,7 +45,7 @@ func init() {
 		Technique: "runtime monitor: metamorphic comparison of two real Parse(+Dispatch) executions (A vs A ++ `--` ++ T) with the intended-outcome fold as absolute anchor on both sides",
 		Rule: "case = prefix A ending in each context class (positional, flag, satisfied scalar, optional-value option without value, multi-value option below max for all 4 element types, command token, unknown option, empty, option whose still-missing mandatory value is `--`) " +
 			"+ hostile tail T (known option names with values, command names, unknown options, ambiguous prefixes, further `--`, arbitrary text); all mode products; distinct = (modes, context, item shapes, tail length); non-trivial = T is not empty" + genDims,
-		Cases: func(tier string) int { return tierN(tier, 20000, 2400000) },
+		Cases: func(tier string) int { return tierN(tier, 60000, 2400000) },
 		Run: func(seed uint64, idx int, tier string) *fw.Result {
 			want := c04Contexts[idx%len(c04Contexts)]
 			for attempt := 0; ; attempt++ {
